@@ -279,7 +279,9 @@ func (p *Pattern) buildCacheKey() string {
 	cacheableTerms := []string{}
 	for _, termSet := range p.termSets {
 		if len(termSet) == 1 && !termSet[0].inv && (p.fuzzy || termSet[0].typ == termExact) {
-			cacheableTerms = append(cacheableTerms, string(termSet[0].text))
+			// A term can contain a tab, which also is the separator of the key.
+			// Replace it with a byte that never occurs in a (valid UTF-8) term.
+			cacheableTerms = append(cacheableTerms, strings.ReplaceAll(string(termSet[0].text), "\t", "\xff"))
 		}
 	}
 	return strings.Join(cacheableTerms, "\t")
